@@ -6,7 +6,7 @@ Import ListNotations.
 Require Import Verif.lib.Token Verif.lib.Recv Verif.lib.BananaRecv Verif.lib.TimersWire Verif.lib.TimersWireProofs.
 Require Import Verif.gen.RequestsGen Verif.lib.Requests Verif.lib.TimersCalls Verif.lib.TimersCallsProofs.
 Require Import Verif.lib.PyLite Verif.gen.BananaGen Verif.gen.TimersGen Verif.lib.Timers Verif.lib.TimersProofs.
-Require Import Verif.lib.TimersRound Verif.lib.TimersRoundProofs.
+Require Import Verif.lib.TimersRound Verif.lib.TimersRoundProofs Verif.lib.TimersFloat Verif.lib.TimersFloatProofs.
 Local Open Scope Z_scope.
 (* (unqualified run / init / step / st are those of lib/Timers.v; the request table's and the byte receiver's are qualified) *)
 
@@ -295,3 +295,66 @@ Print Assumptions C15_ping_only_when_idle_rounded.
 Theorem C15_exact_is_an_instance : forall c evs s, runR Z.add Z.sub eps_ms c s evs = run c s evs.
 Proof. exact exact_instance. Qed.
 Print Assumptions C15_exact_is_an_instance.
+
+(* ============================== IEEE binary64: delta = 2^-23 s, as a lemma ============================== *)
+
+(* lib/TimersFloat.v models binary64 + and - of time values exactly in Z (no real numbers): a time is an integer number of
+   units of 2^-U s (any U; every double of magnitude >= 2^(52-U) s is such an integer, all of them for U = 1074), the exact sum
+   / difference is an integer, and the result is that integer rounded to 53 significant bits, nearest, ties to even (rnd53);
+   compared with the machine's floats on every run.  A result of magnitude below 2^M units is off by at most 2^(M-54): half
+   an ulp of the top binade. *)
+Theorem C15_binary64_half_ulp : forall M x, 54 <= M -> Z.abs x < 2 ^ M -> Z.abs (rnd53 x - x) <= 2 ^ (M - 54).
+Proof. exact rnd53_err. Qed.
+Print Assumptions C15_binary64_half_ulp.
+
+(* hence for all times below 2^31 s (fadd / fsub ARE binary64 there) every + and - is within delta = 2^-23 s = 2^(U-23) units *)
+Theorem C15_binary64_within : forall U, 23 <= U ->
+  within (delta64 U) (fadd U) Z.add /\ within (delta64 U) (fsub U) Z.sub /\
+  (forall a b, Z.abs (a + b) < horizon U -> fadd U a b = rnd53 (a + b)) /\
+  (forall a b, Z.abs (a - b) < horizon U -> fsub U a b = rnd53 (a - b)).
+Proof.
+  exact (fun U H => conj (fadd_within U H) (conj (fsub_within U H) (conj (fadd_is_binary64 U) (fsub_is_binary64 U)))).
+Qed.
+Print Assumptions C15_binary64_within.
+
+(* the timing sentences for the callbacks run with binary64 arithmetic, time unit 2^-U s (U >= 23), eps = the double EPSILON
+   in that unit: torn down by  last activity + 2T + EPSILON + 3 * 2^-23 s + reactor lateness; ... *)
+Theorem C15_idle_torn_down_binary64 : forall U eps, 23 <= U -> 0 <= eps ->
+  forall c tc T d pre post,
+  cT c = Some T -> 0 <= T -> 0 <= d ->
+  sorted_from tc pre -> no_close pre ->
+  let s := runR (fadd U) (fsub U) eps c (initR (fadd U) (fsub U) eps c tc) pre in
+  only_ticks post -> sorted_from (now s) post -> punctualR (fadd U) (fsub U) eps c d s post ->
+  let s' := runR (fadd U) (fsub U) eps c s post in
+  now s + 2 * T + eps + 3 * delta64 U + d < now s' ->
+  exists x, In x (torn s') /\ x <= now s + 2 * T + eps + 3 * delta64 U + d.
+Proof. exact idle_torn_down_binary64. Qed.
+Print Assumptions C15_idle_torn_down_binary64.
+
+(* ... a byte at least every T - 2^-23 s keeps the connection; a teardown means the latest arrival was more than T - 2^-23 s old; ... *)
+Theorem C15_active_kept_binary64 : forall U eps, 23 <= U -> 0 <= eps ->
+  forall c tc T evs, cT c = Some T ->
+  (forall pre t post, evs = pre ++ Tick t :: post -> t - last_arrival tc false pre <= T - delta64 U) ->
+  torn (runR (fadd U) (fsub U) eps c (initR (fadd U) (fsub U) eps c tc) evs) = [].
+Proof. exact active_kept_binary64. Qed.
+Print Assumptions C15_active_kept_binary64.
+
+Theorem C15_torn_only_when_idle_binary64 : forall U eps, 23 <= U -> 0 <= eps ->
+  forall c tc T evs x, cT c = Some T ->
+  In x (torn (runR (fadd U) (fsub U) eps c (initR (fadd U) (fsub U) eps c tc) evs)) ->
+  exists pre post, evs = pre ++ Tick x :: post /\ T - delta64 U < x - last_arrival tc false pre.
+Proof. exact torn_only_when_idle_binary64. Qed.
+Print Assumptions C15_torn_only_when_idle_binary64.
+
+(* ... and a PING by  + 2K + EPSILON + 3 * 2^-23 s + lateness *)
+Theorem C15_ping_within_binary64 : forall U eps, 23 <= U -> 0 <= eps ->
+  forall c tc K d pre post,
+  cK c = Some K -> 0 <= K -> 0 <= d ->
+  sorted_from tc pre -> no_close pre ->
+  let s := runR (fadd U) (fsub U) eps c (initR (fadd U) (fsub U) eps c tc) pre in
+  only_ticks post -> sorted_from (now s) post -> punctualR (fadd U) (fsub U) eps c d s post ->
+  let s' := runR (fadd U) (fsub U) eps c s post in
+  now s + 2 * K + eps + 3 * delta64 U + d < now s' ->
+  exists new p, pings s' = new ++ pings s /\ In p new /\ now s <= p <= now s + 2 * K + eps + 3 * delta64 U + d.
+Proof. exact ping_within_binary64. Qed.
+Print Assumptions C15_ping_within_binary64.
